@@ -128,6 +128,48 @@ def make_mainproc(shape, which):
     return h
 
 
+def letterm_body(shape, leaves):
+    """collect_information infers the sort of every let-bound term: a term of
+    any shape and operator must not crash it (main process)."""
+    from ddsmt import smtlib
+    from ddsmt.nodes import Node
+    _pristine_args()
+    term, model = T.build(shape, leaves, Node)
+    exprs = [Node('declare-const', 'x', ('_', 'BitVec', '4')),
+             Node('assert', Node('let', ((Node('v'), term),), 'v'))]
+    try:
+        smtlib.collect_information(exprs)
+        smtlib.get_sort(term)
+        smtlib.get_bv_width(term)
+    except Exception as e:
+        return (f'collect_information/get_sort raised {type(e).__name__}: '
+                f'{e} for the let-bound term {model!r}')
+    return None
+
+
+def make_letterm(shape, which):
+    def h(lw: str):
+        k = T.count_leaves(shape)
+        leaves = ['x'] * k
+        assume(1 <= len(lw) <= 20)
+        leaves[which] = lw
+        if which == 1:
+            leaves[0] = '_'
+        if k > 2:
+            leaves[-1] = '3'
+        r = letterm_body(shape, leaves)
+        if r:
+            raise Violation(r)
+    return h
+
+
+def _term_shapes(tier):
+    n = bounds(tier)['tree_nodes']
+    return [s for s in T.shapes_up_to(n)
+            if s != 'L' and len(s) >= 1 and T.count_leaves(s) >= 1
+            and T.count_leaves(s) <= 4]
+
+
 def _cmd_shapes(tier):
     n = bounds(tier)['tree_nodes']
     return [s for s in T.shapes_up_to(n)
@@ -438,6 +480,17 @@ def partitions(tier):
                           'setup': _setup_t, 'reset': _reset, 'budget_s': bud,
                           'bounds': {'shape': T.shape_str(sh),
                                      'symbolic_leaf': which}})
+    for k, sh in enumerate(_term_shapes(tier)):
+        for which in (0, 1):
+            if which >= T.count_leaves(sh):
+                continue
+            if which == 1 and (sh[0] == 'L' or T.count_leaves(sh[0]) < 2):
+                continue      # second leaf as operator: indexed head (_ op ..)
+            parts.append({'name': f'letterm_{k}_{which}',
+                          'fn': make_letterm(sh, which), 'setup': _setup_t,
+                          'reset': _reset, 'budget_s': bud,
+                          'bounds': {'shape': T.shape_str(sh),
+                                     'symbolic_leaf': which}})
     for st in ('ddmin', 'hierarchical'):
         parts.append({'name': f'isolate_{st}', 'kind': 'native',
                       'run': (lambda st=st: run_isolate(st)),
@@ -460,6 +513,17 @@ def replay(part, cex):
             leaves[0] = 'assert'
             leaves[int(which)] = cex['lw']
             return mainproc_body(shape, leaves)
+        if part.startswith('letterm'):
+            _, k, which = part.split('_')
+            shape = _term_shapes(tier)[int(k)]
+            n = T.count_leaves(shape)
+            leaves = ['x'] * n
+            leaves[int(which)] = cex['lw']
+            if int(which) == 1:
+                leaves[0] = '_'
+            if n > 2:
+                leaves[-1] = '3'
+            return letterm_body(shape, leaves)
         if part.startswith('isolate'):
             return isolate_body(cex['site'], cex['exc_i'], cex['victim_i'],
                                 cex['glob'], part.split('_')[1])
